@@ -11,7 +11,7 @@ GEN_FNS = [SP + 'NISP2Commitments::nisp2_generate_proof_MultiSecrets', SP + 'NIS
            SP + 'NISPMultiSecrets::nispMultiSecrets_generate_proof', SP + 'NISPSignaturePoK::nisp5_MultiAttr_generate_proof']
 
 PASS = ('std::clone::Clone::clone', 'std::convert::From::from', 'rug::Complete::complete', 'std::borrow::ToOwned::to_owned', 'std::ops::Deref::deref',
-        'std::convert::Into::into', 'std::borrow::Borrow::borrow')
+        'std::convert::Into::into', 'std::borrow::Borrow::borrow', 'std::convert::AsRef::as_ref', "std::borrow::Cow::<'_, B>::into_owned")
 
 
 def origin_call(zf, l, depth=0):
@@ -177,6 +177,8 @@ class Bits:
                 res = self.bits_op(rv['op'], depth + 1)
             elif rv['k'] == 'ref':
                 res = self.bits_place(rv['pl'], depth + 1)
+            elif rv['k'] == 'agg' and rv['ak'] == 'adt' and rv['name'].endswith('borrow::Cow') and len(rv.get('ops', [])) == 1:
+                res = self.bits_op(rv['ops'][0], depth + 1)        # Cow::Owned(x) / Cow::Borrowed(&x): the integer it holds
             elif rv['k'] == 'agg' and rv['ak'] == 'tuple' and path and path[0].isdigit() and int(path[0]) < len(rv['ops']):
                 o = rv['ops'][int(path[0])]
                 if o['k'] in ('copy', 'move') and len(path) > 1:
@@ -329,6 +331,16 @@ def responses(bits):
                             dl = nxt[0]
             for (nm2, mask2, prod2, line2) in responses(cb):
                 out.append((name or nm2, mask2, prod2, line2))
+        # responses computed in a private function of the module the prover hands the work to (`try_generate_proof`, a helper shared by two
+        # provers): found there, under the names they have there
+        seen = set()
+        for bi, t in body.calls():
+            tgt = local_target(bits.eng, t)
+            if tgt and tgt != body.path and tgt in bits.prog.bodies and tgt not in seen and tgt.startswith('cl03::sigma_protocols::') \
+                    and not tgt.endswith(tuple(g.split('::')[-1] for g in GEN_FNS)) and not bits.prog.bodies[tgt].is_pub:
+                seen.add(tgt)
+                hb = Bits(bits.ctx, bits.cfg, tgt, bits.suite)
+                out.extend(responses(hb))
     return out
 
 
@@ -380,7 +392,7 @@ def rule_response_masking(ctx, cfg='prod-all'):
                     yield Ob('RF-H', '%s#N2:%s/%s' % (fn, ri[0], rj[0]), ok,
                              'two responses whose secrets differ by one factor: the quotient of the responses reveals that factor unless the mask of the denominator dominates its product',
                              prog.bodies[fn].file(), fact=facts, expected='denominator mask_bits >= product_bits + 64')
-    yield Ob('RF-H', 'cl03#response-census', total >= 16, 'response sites discovered in the four sigma-protocol provers', '', fact=total, expected='>= 16', nontrivial=False)
+    yield Ob('RF-H', 'cl03#response-census', total >= 12, 'response sites discovered in the four sigma-protocol provers (16 on the reviewed tree)', '', fact=total, expected='>= 12', nontrivial=False)
 
 
 RANGE_GEN_FNS = ['cl03::range_proof::Boudot2000RangeProof::proof_same_secret', 'cl03::range_proof::Boudot2000RangeProof::proof_large_interval_specific']
@@ -571,6 +583,56 @@ def loop_unit_tests(prog, eng, b, fd, blocks):
     return cand, gcd
 
 
+def _is_twice_plus_one(zf, op):
+    """the operand is 2 * x + 1 for one value x drawn by a call (compared as a function of x at several values: `2 * x + 1`, `(x << 1) + 1`,
+    `x + x + 1` are the same function)"""
+    from cl03_rules import _expr_shape
+    sh = _expr_shape(zf, op)
+    if sh is None:
+        return False
+    ARITH = {'add', 'sub', 'mul', 'shl', 'pow', 'neg', 'rem'}
+
+    def ev(x, env):
+        k = x[0]
+        if k == 'lit':
+            try:
+                return int(str(x[1]).split('_')[0])
+            except ValueError:
+                return None
+        if k == 'leaf' or k.lower() not in ARITH:
+            return env.setdefault(str(x), None)
+        vs = [ev(y, env) for y in x[1:]]
+        if any(v is None for v in vs):
+            return None
+        op_ = k.lower()
+        try:
+            if op_ == 'add':
+                return vs[0] + vs[1]
+            if op_ == 'sub':
+                return vs[0] - vs[1]
+            if op_ == 'mul':
+                return vs[0] * vs[1]
+            if op_ == 'shl' and 0 <= vs[1] < 64:
+                return vs[0] << vs[1]
+            if op_ == 'pow' and 0 <= vs[1] < 64:
+                return vs[0] ** vs[1]
+            if op_ == 'neg':
+                return -vs[0]
+        except (IndexError, TypeError):
+            return None
+        return None
+    # find the opaque leaves
+    env = {}
+    ev(sh, env)
+    leaves = [k for k in env]
+    if len(leaves) != 1:
+        return False
+    for val in (5, 11, 23):
+        if ev(sh, {leaves[0]: val}) != 2 * val + 1:
+            return False
+    return True
+
+
 def rule_key_generation(ctx, cfg='prod-all'):
     from flow import walk
     prog, eng, ga = ctx.prog(cfg), ctx.eng(cfg), ctx.gates(cfg)
@@ -602,7 +664,7 @@ def rule_key_generation(ctx, cfg='prod-all'):
                         for a in g2.args[:2]:
                             if a['k'] in ('copy', 'move'):
                                 at = fr.lift(fd.read_op(a))
-                                srcs.append(any(x_[0] == 'o' and x_[1].endswith('thread_rng') for x_ in at) and any(x_ == ('c', '2') for x_ in at))
+                                srcs.append(any(x_[0] == 'o' and x_[1].endswith('thread_rng') for x_ in at) and any(x_ in (('c', '2'), ('c', '1')) for x_ in at))
                         if len(srcs) == 2 and all(srcs):
                             distinct = True
         yield Ob('RF-Q', '%s#distinct-primes' % ekey, distinct, 'the two primes are compared with each other before the modulus is formed', prog.bodies[entry].span,
@@ -625,6 +687,8 @@ def rule_key_generation(ctx, cfg='prod-all'):
                         at = fd.read_op(tt['args'][0])
                         if ('c', '2') in at and ('c', '1') in at and any(a[0] == 'o' and a[1].endswith('thread_rng') for a in at):
                             shape = True
+                        elif any(a[0] == 'o' and a[1].endswith('thread_rng') for a in at) and _is_twice_plus_one(zf, tt['args'][0]):
+                            shape = True      # the same value written another way (`(p' << 1) + 1`)
                     if tt['k'] == 'switch':
                         for g2 in ga._flatten(classify_switch(eng, fd, x)):
                             if 'PartialEq' in (g2.what or '') and g2.args and g2.args[0]['k'] in ('copy', 'move') and not g2.args[0]['pl'].get('p'):
